@@ -18,9 +18,11 @@ CONSTANTS MaxWord,      \* maximal length of the transformation word
           Core          \* 1: the small set of special points, 2: all special points, 3: special points, band points and
                         \* the whole box universe of HypCoords, 4: the band points (triangles only over a band pair),
                         \* 5: drawings with custom windows and points outside the default window,
-                        \* 6: all words in three non-commuting atoms on two points
+                        \* 6: all words in three non-commuting atoms on two points,
+                        \* 7: small polygons: polygons on six points shrunk by Lox(1, q), q in Shrinks
 
 VARIABLES word, verts, last,
+          shrink,   \* 0, or q: the object is shrunk by the loxodromic Lox(1, q) (DrawGeom, "small polygons"); Core = 7
           win       \* the window <<xmin, xmax, ymax>> the drawing is constructed with (xlim, ylim); default <<-6, 6, 8>>
 
 P3(a, b, c) == <<a, b, c>>
@@ -50,7 +52,10 @@ WinPts == {P3(51, 50, 0 - 10), P3(55, 54, 0 - 10), P3(33, 32, 0 - 8), P3(43, 42,
 WinOthers == {P3(1, 0, 0), P3(5, 0 - 3, 0), P3(1, 1, 0), P3(1, 0 - 1, 0)}
 DefaultWindow == <<0 - 6, 6, 8>>
 Windows == IF Core = 5 THEN {<<4, 14, 8>>, <<0 - 20, 20, 12>>} ELSE {DefaultWindow}
-Pts == CASE Core = 6 -> {P3(3, 2, 2), P3(5, 3, 4)} [] Core = 5 -> WinPts \cup WinOthers [] Core = 1 -> SpecialSmall [] Core = 2 -> Special [] Core = 3 -> Universe \cup Special \cup BandPts [] Core = 4 -> BandPts
+CONSTANT Shrinks      \* the factors q of Core = 7 (>= 30)
+\* (1,0,0)-(5,-3,0): on the axis of the shrink; (3,2,2)-(9,7,4): on the vertical X = -2 of the half-plane
+ShrinkPts == {P3(1, 0, 0), P3(5, 0 - 3, 0), P3(3, 2, 2), P3(9, 7, 4), P3(9, 4, 0 - 8)}
+Pts == CASE Core = 7 -> ShrinkPts [] Core = 6 -> {P3(3, 2, 2), P3(5, 3, 4)} [] Core = 5 -> WinPts \cup WinOthers [] Core = 1 -> SpecialSmall [] Core = 2 -> Special [] Core = 3 -> Universe \cup Special \cup BandPts [] Core = 4 -> BandPts
 
 \* Core = 6: every word of length <= MaxWord in three atoms that do not commute, on two points
 WordAtoms == {[k |-> "lox", p |-> 2, q |-> 1], [k |-> "rot", a |-> 3, b |-> 4, c |-> 5], [k |-> "refl", v |-> P3(1, 2, 0)]}
@@ -62,20 +67,23 @@ TV(vs) == [i \in 1..Len(vs) |-> DgAct(T, vs[i])]
 Range(s) == {s[i] : i \in 1..Len(s)}
 
 Init == word = <<>> /\ verts = <<>> /\ last = [a |-> "init"] /\ win \in Windows
+        /\ shrink \in (IF Core = 7 THEN Shrinks ELSE {0})
 
 AddTransform(a) ==
-  /\ verts = <<>> /\ Len(word) < MaxWord
-  /\ word' = Append(word, <<"L", a>>) /\ UNCHANGED <<verts, win>> /\ last' = [a |-> "add_transform"]
+  /\ verts = <<>> /\ Len(word) < MaxWord /\ shrink = 0
+  /\ word' = Append(word, <<"L", a>>) /\ UNCHANGED <<verts, win, shrink>> /\ last' = [a |-> "add_transform"]
 Precompose(a) ==
-  /\ verts = <<>> /\ Len(word) < MaxWord
-  /\ word' = Append(word, <<"R", a>>) /\ UNCHANGED <<verts, win>> /\ last' = [a |-> "precompose_transform"]
+  /\ verts = <<>> /\ Len(word) < MaxWord /\ shrink = 0
+  /\ word' = Append(word, <<"R", a>>) /\ UNCHANGED <<verts, win, shrink>> /\ last' = [a |-> "precompose_transform"]
 AddVertex(v) ==
   /\ Len(verts) < MaxVerts /\ v \notin Range(verts)
   /\ DgSmall(DgAct(T, v))
   /\ (Core = 4 /\ Len(verts) >= 2) => (BandPair(verts[1], verts[2]) /\ v \in BandThird)
   \* custom windows: only points inside the window (half-plane), so that every scene is drawn in the half-plane
   /\ Core = 5 => (~DgAtInf(v) => DgInWindow("halfplane", v, win))
-  /\ verts' = Append(verts, v) /\ UNCHANGED <<word, win>> /\ last' = [a |-> "add_vertex"]
+  \* small polygons: every edge (the closing one included) in the domain of the shrink description
+  /\ Core = 7 => \A i \in 1..Len(verts) : DgShrinkOK(verts[i], v, shrink)
+  /\ verts' = Append(verts, v) /\ UNCHANGED <<word, win, shrink>> /\ last' = [a |-> "add_vertex"]
 
 Next == \/ \E a \in Atoms : AddTransform(a) \/ Precompose(a)
         \/ \E v \in Pts : AddVertex(v)
@@ -124,8 +132,16 @@ Scene(w, vs) ==
    vline |-> VLine(tv, w), win |-> win]
 
 \* emitted once per scene (an INVARIANT: evaluated on every distinct state, and in simulation on the visited states)
-EmitScene == verts = <<>> \/ PrintT("EMIT " \o ToJson(Scene(word, verts)))
-View == <<word, verts, win>>
+\* a small polygon: the original vertices, the factor, the exact half-plane coordinates of the shrunk vertices and the
+\* kind of piece every edge must be drawn with (in Poincare coordinates the shrunk vertices are not rational numbers
+\* of 32-bit size: the replay names them through Point.coords, property C01)
+SmallScene(vs, q) ==
+  [small |-> TRUE, verts |-> vs, shrink |-> q, word |-> <<>>,
+   hp |-> [i \in 1..Len(vs) |-> DgShrinkCoordHP(vs[i], q)],
+   kinds |-> [m \in DrawModels |-> [i \in 1..NEdges(vs) |-> DgShrinkPieceKind(m, vs[i], vs[Succ(vs, i)], q)]]]
+EmitScene == verts = <<>> \/ (IF shrink = 0 THEN PrintT("EMIT " \o ToJson(Scene(word, verts)))
+                               ELSE Len(verts) < 3 \/ PrintT("EMIT " \o ToJson(SmallScene(verts, shrink))))
+View == <<word, verts, win, shrink>>
 
 (***************************************************************************)
 (* Theorems checked on every scene                                          *)
@@ -147,6 +163,9 @@ EdgesAreGeodesics ==
          LET x == tv[i]
              y == tv[Succ(verts, i)]
          IN (DgDefined(m, x) /\ DgDefined(m, y)) => DgEdgeTheorem(m, x, y, tu) /\ DgDescriptorTheorem(m, x, y)
+
+\* the description of shrunk objects agrees with the integer image where that fits into 32 bits
+ShrinkLaws == Core = 7 => \A i \in 1..NEdges(verts) : \A q \in {2, 3} : DgShrinkLaws(verts[i], verts[Succ(verts, i)], q)
 
 \* the normal of the image edge is the image of the normal: the drawing of the transformed object is the
 \* transformed geodesic
